@@ -21,7 +21,8 @@ def make_desc(rng, lens):
 
 def gen_decl(rng, k):
     ngroups = rng.choice([0, 0, 1, 2])
-    groups = [dict(name=b("group%d" % (i + 1)), desc=b(rng.choice(["", "about this group", "x " * 30]))) for i in range(ngroups)]
+    # creation order differs from alphabetical order (the groups live in a std::map)
+    groups = [dict(name=b(["zulu", "alpha", "mike"][i]), desc=b(rng.choice(["", "about this group", "x " * 30]))) for i in range(ngroups)]
     nopts = rng.choice([1, 2, 3, 3, 4, 6])
     opts = []
     letters = rng.sample("abcdefghijklmnopqrstuvwxyz", nopts)
